@@ -632,3 +632,20 @@ Definition norm_at (idxs : list nat) (rs : list rawcall) : list (option (list py
 (* both observations of one sequence *)
 Definition observe_raw (e : henv) (k : kexpr) (fallback : bool) (idxs : list nat) (rs : list rawcall) :=
   (trace_raw e k fallback rs, norm_at idxs rs).
+
+(* ------------------------------------------------------------------ *)
+(* values without frozensets (the fragment for which hash is proved to respect ==) *)
+Fixpoint no_frozen (v : pyval) : bool :=
+  match v with
+  | PTuple l => forallb no_frozen l
+  | PFrozen _ => false
+  | _ => true
+  end.
+
+(* relabelling the indices of a raw call by rho *)
+Definition rl_map (rho : pyval -> pyval) (m : indmap) : indmap := map (fun ki => (rho (fst ki), snd ki)) m.
+Definition relabel (rho : pyval -> pyval) (r : rawcall) : rawcall :=
+  mkRaw (map (map rho) (r_inputs r))
+        (option_map (map rho) (r_output r))
+        (option_map (map (fun kv => (rho (fst kv), snd kv))) (r_size_dict r))
+        (r_shapes r) (r_optimize r) (r_canon r) (r_inputs_are_lists r) (r_kwargs r) (r_cache r) (r_hcls r).
